@@ -28,6 +28,9 @@ class Pipeline:
         CLOCK.source = lambda: self.net.now
         FM.time = types.SimpleNamespace(time=lambda: self.net.now // 1000 if isinstance(self.net.now, int) else 0, sleep=lambda s: None)
         self.log = {}          # filter name -> list of process() inputs as {topic: seq}
+        self.times = {}        # filter name -> virtual time of each process() call
+        self.pub_times = {}    # source name -> virtual time of each produced frame
+        self.threads = {}
         self.sent = {}         # filter name -> list of process() outputs
         self.filters = {}
         self.errors = []
@@ -39,7 +42,8 @@ class Pipeline:
     def add(self, name, sources=None, outputs=None, behave=None, proc_time=0, start_at=0, source_frames=None, frame_interval=0, **cfgx):
         """behave(seq_dict, frames) -> process() result; source_frames = number of frames a source filter produces"""
         pl = self; net = self.net
-        self.log.setdefault(name, []); self.sent.setdefault(name, [])
+        if name in self.log: self.log[name].append('RESTART'); self.times[name].append('RESTART')
+        self.log.setdefault(name, []); self.sent.setdefault(name, []); self.times.setdefault(name, []); self.pub_times.setdefault(name, [])
         incarnation = [0]
         def body():
             class TF(FM.Filter):
@@ -50,11 +54,12 @@ class Pipeline:
                             net.current.sleep(POLL); return None
                         if frame_interval: net.current.sleep(frame_interval)
                         seq = self.n; self.n += 1
-                        pl.sent[name].append(seq)
+                        pl.sent[name].append(seq); pl.pub_times[name].append(net.now)
                         return {'main': Frame({'seq': seq})}
                     seqs = {t: f.data.get('seq') for t, f in frames.items() if not t.startswith('_')}
-                    pl.log[name].append(seqs)
-                    if proc_time: net.current.sleep(proc_time)
+                    pl.log[name].append(seqs); pl.times[name].append(net.now)
+                    pt = proc_time(seqs) if callable(proc_time) else proc_time
+                    if pt: net.current.sleep(pt)
                     out = behave(seqs, frames) if behave else None
                     pl.sent[name].append(None if out is None else 'callable' if callable(out) else 'frame' if isinstance(out, Frame) else sorted(out))
                     return out
@@ -68,8 +73,10 @@ class Pipeline:
                 TF.run(cfg, prop_exit='none', obey_exit='none', stop_evt=stop, sig_stop=False)
             except (simnet.Killed, PathEnd, PathAbort, ViolationFound): raise
             except BaseException as ex:
-                pl.errors.append((name, repr(ex))); raise
-        return net.spawn(name, body, start_at)
+                if not net.done and not net.current.killed: pl.errors.append((name, repr(ex)))
+                raise
+        t = net.spawn(name, body, start_at); self.threads[name] = t
+        return t
 
     def run(self):
         try:
